@@ -5285,3 +5285,10 @@ pub fn lex_program<S: AsRef<str>>(source: &S) -> Result<LexResult, ErrorKind> {
     let lexer = Lexer::new(source.as_ref(), None, None)?;
     Ok(lexer.lex())
 }
+
+#[cfg(kani)]
+pub(crate) mod verif {
+    #[allow(clippy::wildcard_imports)]
+    use super::*;
+    include!(concat!(env!("SAS_LEXER_VERIF_DIR"), "/harness/lexer.rs"));
+}
